@@ -2,6 +2,7 @@ import HapVerif.Model.C05
 import HapVerif.Drv.Common
 import HapVerif.Drv.C05Faults
 import HapVerif.Drv.C05Align
+import HapVerif.Drv.C05Count
 /-!
 Driver for C05.  Case line:
 
@@ -258,6 +259,7 @@ def handle (args : List String) (impl : String) : Verdict :=
   match args with
   | ["maps", _n, p, ops] => handleMaps p ops impl
   | ["fx", q, n, shards, ops] => C05F.handleFx q n shards ops impl
+  | ["cnt", p, ops] => C05Cnt.handleCnt p ops impl
   | ["al", n, shards, dyn, ops] => C05A.handleAl n shards dyn ops impl
   | [mode, n, shards, ops] =>
     match n.toNat?, parseList parseNat? shards "." with
